@@ -473,7 +473,9 @@ def gen_case(tape, batch):
     # decoy's marker (they are in no `allowed` set).
     import copy
     xml_classes = []
-    taken = {e["name"] for e in docs}
+    # (every wrapped class's name is taken, documented or not: a "decoy" under the name of an undocumented wrapped
+    #  class -- e.g. the global twin of a namespaced class -- would simply be that class's documentation)
+    taken = {e["name"] for e in docs} | {cname for cname, _, _ in classes} | {c.qname for c in model.classes()}
     for entry in docs:
         dec = None
         if entry["members"] and "<" not in entry["name"] and tape.bool(0.35, "decoy-class"):
